@@ -12,6 +12,11 @@ COMMON_NOTE = ("Trusted: Coq 8.16.1 kernel (vm_compute used, native_compute not 
                "runtime semantics are modelled as executable Gallina and validated by the correspondence, not verified.")
 
 CLAIMED = {
+    "C08": dict(
+        text="Coq theorem with NO hypothesis: for every member list, series, time axis and depth pattern the operational model of ClimatologyConfig.check (ordered overwrites per member, depth-span members skipped when no depth is present, MISSING before and after the loop) equals 'the last matching member classifies the value (FAIL outside fspan, else SUSPECT outside vspan, else GOOD, bounds inclusive), UNKNOWN if none matches, MISSING if the value is missing' — by induction over the member list from the right; inclusive boundaries in either order for absolute, periodic and depth spans; calendar arithmetic on Z (civil-date round trip proved, period ranges, exhaustive check 1968-2040). Tied by correspondence over every period kind and member shape and by validating the calendar against pandas. Two genuine defects found by this machinery were repaired (F4, F6).",
+        design_ref="DESIGN.md §8 C08",
+        technique="Coq proof (fold/rev_ind 'last match wins' refinement, calendar arithmetic) + correspondence",
+    ),
     "C12": dict(
         text="Coq theorems (all lengths, missing patterns, both check types, with/without test_period, all min_obs/min_period, all thresholds): the operational model of attenuated_signal_test equals the decision list FAIL (spread below fail) > SUSPECT (below suspect) > GOOD, UNKNOWN when the window holds too few observations or the spread is undefined, MISSING for a missing point; trailing window (t-P, t]; whole-series mode unconditional (empty series included); std compared through the variance (soundness lemma); unknown check_type rejected. Rolling range with a missing value inside the window is refuted in Coq and reported as known finding F19. Partial: pandas rolling semantics modelled.",
         design_ref="DESIGN.md §8 C12",
